@@ -225,7 +225,13 @@ func nilableCallResult(P *Program, call *ssa.Call, idx int) bool {
 				return true
 			}
 		}
-		if len(impls) > 0 {
+		// an own interface is implemented by own types only; an interface of a dependency (http.RoundTripper)
+		// also has implementers outside the module: the convention below applies to them
+		ownIface := false
+		if n, ok := call.Common().Value.Type().(*types.Named); ok && n.Obj().Pkg() != nil && isOwnPath(n.Obj().Pkg().Path()) {
+			ownIface = true
+		}
+		if len(impls) > 0 && ownIface {
 			return false
 		}
 	}
@@ -294,7 +300,27 @@ func resultKnownNonNil(P *Program, fs FactSet, call *ssa.Call, idx int, v ssa.Va
 					return false
 				}
 			}
-			return true
+			ownIface := false
+			if n, isN := call.Common().Value.Type().(*types.Named); isN && n.Obj().Pkg() != nil && isOwnPath(n.Obj().Pkg().Path()) {
+				ownIface = true
+			}
+			if ownIface {
+				return true
+			}
+			// an interface of a dependency has implementers outside the module: the err == nil convention too
+			for i := 0; i < sig.Results().Len(); i++ {
+				if isErrorType(sig.Results().At(i).Type()) && check(i, failErrNonNil) {
+					return true
+				}
+			}
+			return false
+		}
+		if len(impls) == 0 {
+			for i := 0; i < sig.Results().Len(); i++ {
+				if isErrorType(sig.Results().At(i).Type()) && check(i, failErrNonNil) {
+					return true
+				}
+			}
 		}
 		return false
 	}
@@ -355,6 +381,25 @@ func derefSites(P *Program, fn *ssa.Function) []derefSite {
 						out = append(out, derefSite{ins, cc.Args[0], "call of " + callee.Name() + " (dereferences its receiver)"})
 					}
 					// value-receiver method called through a pointer: implicit load
+				}
+				// a dependency function handed the value result of a (value, error) call: functions taking a
+				// *struct operate on it (httputil.DumpResponse(res, …) with the res of a failed round trip)
+				if callee := cc.StaticCallee(); callee != nil && !isOwnPath(pkgPathOf(callee)) && !cc.IsInvoke() {
+					for i, a := range cc.Args {
+						ex, isE := a.(*ssa.Extract)
+						if !isE || ex.Index != 0 {
+							continue
+						}
+						tup, isT := ex.Tuple.Type().(*types.Tuple)
+						if !isT || tup.Len() != 2 || !isErrorType(tup.At(1).Type()) {
+							continue
+						}
+						if pt, isP := a.Type().Underlying().(*types.Pointer); isP {
+							if _, isS := pt.Elem().Underlying().(*types.Struct); isS {
+								out = append(out, derefSite{ins, a, fmt.Sprintf("argument %d of %s (a dependency function that operates on the object)", i, callee.Name())})
+							}
+						}
+					}
 				}
 				// own callee dereferencing a pointer parameter unguarded
 				if callee := cc.StaticCallee(); callee != nil && callee.Blocks != nil && isOwnPath(pkgPathOf(callee)) {
@@ -470,6 +515,13 @@ func checkC15(c *Check) {
 	}
 	if f := P.Func(pkgServer, "(*LogMiddleware).UnaryServerInterceptor"); f != nil {
 		roots = append(roots, f)
+	}
+	// own http.RoundTripper implementations run inside every http.Client.Do of a check
+	for _, f := range P.Funcs {
+		if f.Parent() == nil && f.Name() == "RoundTrip" && f.Signature.Recv() != nil && f.Signature.Params().Len() == 1 &&
+			typeID(f.Signature.Params().At(0).Type()) == "net/http.Request" && f.Signature.Results().Len() == 2 {
+			roots = append(roots, f)
+		}
 	}
 	reach := P.reachableOwn(roots...)
 	// generated code is analysed for getters' guards only; exclude it from site enumeration
